@@ -20,17 +20,21 @@ formula), so `math.ceil(when)` becomes `ceil_to u when` (the least multiple of u
           slot and creating the connection, but not around the first pool lookup),
           connector.TCPConnector._wrap_create_connection (ceil_timeout(sock_connect)),
           client._connect_and_send_request (close-not-release on failure).
+  connector.BaseConnector._available_connections and its three call-site comparisons (the statement translator
+          of translator/gen_pool.py is reused, so that the C18 closure does not depend on Generated/PoolGen.v)
 """
 import ast
 
 from . import core
+from . import gen_pool
 from .core import TranslatorError
 
 OUTPUT = "TimeoutsGen.v"
 ITEMS = ["ceil_to", "total_enabled", "total_when", "timer_guard_same_as_start", "TimerContext shape",
          "ctx_enabled", "ctx_when", "read_enabled", "read_when", "read timer pause/resume/data shape",
          "effective_total", "wiring:_request", "wiring:connect", "wiring:_wrap_create_connection",
-         "wiring:_connect_and_send_request"]
+         "wiring:_connect_and_send_request", "available_connections", "connect_must_wait", "wait_slot_found",
+         "release_skips_key"]
 
 H = "aiohttp/helpers.py"
 P = "aiohttp/client_proto.py"
@@ -407,9 +411,21 @@ def _gen_wiring():
     return "\n".join(out) + "\n"
 
 
+def _gen_capacity():
+    out = [gen_pool._gen_available()]
+    out.append("(* connect(): `if self._available_connections(key) <= 0: await self._wait_for_available_connection` *)\n"
+               f"Definition connect_must_wait (a : Z) : bool := {gen_pool._call_site('connect', 'if')}.\n")
+    out.append("(* _wait_for_available_connection(): `if self._available_connections(key) > 0: break` *)\n"
+               f"Definition wait_slot_found (a : Z) : bool := {gen_pool._call_site('_wait_for_available_connection', 'if')}.\n")
+    out.append("(* _release_waiter(): `if self._available_connections(key) < 1: continue` *)\n"
+               f"Definition release_skips_key (a : Z) : bool := {gen_pool._call_site('_release_waiter', 'if')}.\n")
+    return "\n".join(out)
+
+
 def generate() -> str:
     out = ["Open Scope Z_scope.\n",
            "(* math.ceil of a time counted in ticks of 1/u second: the least multiple of u that is >= x *)\n"
            "Definition ceil_to (u x : Z) : Z := ((x + (u - 1)) / u) * u.\n",
-           _gen_total(), _gen_timer_context(), _gen_ctx(), _gen_read(), _gen_effective_total(), _gen_wiring()]
+           _gen_total(), _gen_timer_context(), _gen_ctx(), _gen_read(), _gen_effective_total(), _gen_wiring(),
+           _gen_capacity()]
     return "\n".join(out)
